@@ -32,6 +32,9 @@ def main():
         print('HARNESS-ERROR trashcli is not imported from %s: %s' % (repo, trashcli.__file__))
         return 2
     from checks import framework as F
+    if a.prop == 'seamaudit':
+        from checks import seamaudit
+        return seamaudit.main()
     if a.prop == 'selftest':
         from checks import selftest
         return selftest.main(a.tier)
